@@ -24,6 +24,10 @@ pub struct Case {
     /// requested credential id length (None = default)
     pub id_len: Option<u8>,
     pub rk: bool,
+    /// irrelevant-member decoration: timeout, hints, attestation preference and formats,
+    /// attachment, and a non-matching exclude list whose descriptors carry transports hints
+    #[serde(default)]
+    pub decor: bool,
 }
 
 pub fn alg_list(n: u8) -> (Vec<webauthn::PublicKeyCredentialParameters>, bool) {
@@ -48,7 +52,7 @@ pub fn users() -> Vec<(Vec<u8>, String)> {
 }
 
 fn base() -> Case {
-    Case { challenge: challenges()[5].clone(), user: 1, org: Org::HostIsRp, algs: 1, mode: Mode::Default, counter: false, memory_store: false, id_len: None, rk: true }
+    Case { challenge: challenges()[5].clone(), user: 1, org: Org::HostIsRp, algs: 1, mode: Mode::Default, counter: false, memory_store: false, id_len: None, rk: true, decor: false }
 }
 
 pub fn cases(tier: Tier) -> Vec<Case> {
@@ -61,7 +65,7 @@ pub fn cases(tier: Tier) -> Vec<Case> {
                 for mode in MODES {
                     for counter in [false, true] {
                         for memory_store in [false, true] {
-                            v.push(Case { challenge: ch.clone(), user: ((ch.len() + algs as usize) % 4) as u8, org, algs, mode, counter, memory_store, id_len: None, rk: true });
+                            v.push(Case { challenge: ch.clone(), user: ((ch.len() + algs as usize) % 4) as u8, org, algs, mode, counter, memory_store, id_len: None, rk: true, decor: (ch.len() + algs as usize) % 2 == 1 });
                         }
                     }
                 }
@@ -73,7 +77,9 @@ pub fn cases(tier: Tier) -> Vec<Case> {
         for org in ORGS {
             for mode in MODES {
                 for rk in [false, true] {
-                    v.push(Case { user, org, mode, rk, ..base() });
+                    for decor in [false, true] {
+                        v.push(Case { user, org, mode, rk, decor, ..base() });
+                    }
                 }
             }
         }
@@ -110,7 +116,23 @@ where
     let (rp_arg, rp_eff, origin_str) = c.org.spec();
     let before = snapshot();
     let selection = Some(webauthn::AuthenticatorSelectionCriteria { authenticator_attachment: None, resident_key: None, require_resident_key: c.rk, user_verification: Default::default() });
-    let opts = creation_options(Reg { rp_id: rp_arg.map(|s| s.to_string()), challenge: c.challenge.clone(), user_id: uid.clone(), user_name: uname, params: list, exclude: None, selection, extensions: None });
+    let mut opts = creation_options(Reg { rp_id: rp_arg.map(|s| s.to_string()), challenge: c.challenge.clone(), user_id: uid.clone(), user_name: uname, params: list, exclude: None, selection, extensions: None });
+    if c.decor {
+        use webauthn::AuthenticatorTransport as T;
+        let pk = &mut opts.public_key;
+        pk.timeout = Some(120_000);
+        pk.hints = Some(vec![webauthn::PublicKeyCredentialHints::SecurityKey, webauthn::PublicKeyCredentialHints::ClientDevice]);
+        pk.attestation = webauthn::AttestationConveyancePreference::Direct;
+        pk.attestation_formats = Some(vec![webauthn::AttestationStatementFormatIdentifiers::Packed]);
+        if let Some(sel) = pk.authenticator_selection.as_mut() {
+            sel.authenticator_attachment = Some(webauthn::AuthenticatorAttachment::CrossPlatform);
+        }
+        let mut d1 = descriptor(&[0xEE; 16]);
+        d1.transports = Some(vec![T::Usb]);
+        let mut d2 = descriptor(&[0xEF; 20]);
+        d2.transports = Some(vec![T::Internal, T::Hybrid]);
+        pk.exclude_credentials = Some(vec![d1, d2]);
+    }
     let res = register(client, c.org, c.mode, opts);
     let after = snapshot();
     let cred = match res {
@@ -241,7 +263,7 @@ fn seq_init(init: usize) -> Shared<RefStore> {
 }
 fn seq_apply(store: &Shared<RefStore>, a: &RegAct) -> RegCheck {
     let org = SEQ_ORGS[a.rp as usize % 2];
-    let c = Case { user: a.user, org, rk: a.rk, counter: a.rk, ..base() };
+    let c = Case { user: a.user, org, rk: a.rk, counter: a.rk, decor: a.user % 2 == 1, ..base() };
     let mut client = mk_client(store.clone(), ScriptedUv::consenting(Log::new()), org, &AuthCfg { counter: c.counter, ..Default::default() });
     check_registration(&mut client, &|| store.recs(), &c)
 }
